@@ -57,6 +57,8 @@ impl std::ops::DerefMut for ObjectGcGuard {
 
 impl Drop for ObjectGcGuard {
     fn drop(&mut self) {
+        #[cfg(feature = "verif-hooks")]
+        crate::verif::with(|c| c.guard_released(self.0));
         unsafe {
             self.0.as_mut().marker = GcMarker::White;
         }
@@ -65,6 +67,8 @@ impl Drop for ObjectGcGuard {
 
 impl ObjectGcGuard {
     pub fn new(mut obj: NonNull<CaoLangObject>) -> Self {
+        #[cfg(feature = "verif-hooks")]
+        crate::verif::with(|c| c.guard_created(obj));
         unsafe {
             obj.as_mut().marker = GcMarker::Protected;
         }
